@@ -177,7 +177,132 @@ func (c *gcase) genInputs(r *rand.Rand, maxStrings, nLong int) {
 				c.Derived[fmt.Sprint(s)] = true
 			}
 		}
+		if nLong >= 100 {
+			// one sentence with a right-recursive spine of more than a thousand links
+			if s := c.spineSentence(r, minLen); len(s) > 1000 && len(s) < 14000 && add(s) {
+				if c.Derived == nil {
+					c.Derived = map[string]bool{}
+				}
+				c.Derived[fmt.Sprint(s)] = true
+			}
+		}
 	}
+}
+
+// spineSentence builds a sentence whose derivation applies one directly right-recursive rule
+// A -> alpha A more than a thousand times in a row (alpha deriving at least one token): the parser
+// shifts the whole spine before it reduces anything, and then performs that many reductions
+// without a shift in between. nil if the grammar has no such rule within reach.
+func (c *gcase) spineSentence(r *rand.Rand, minLen []int) []int {
+	const inf = 1 << 20
+	g := c.RG
+	minOf := func(ri int) int {
+		l := 0
+		for _, x := range g.Rules[ri].Rhs {
+			l += minLen[x]
+			if l >= inf {
+				return inf
+			}
+		}
+		return l
+	}
+	// minimal expansion of a symbol into tokens
+	var expand func(s int, depth int) []int
+	expand = func(s int, depth int) []int {
+		if !g.IsNT[s] {
+			return []int{s}
+		}
+		if depth > 200 {
+			return nil
+		}
+		best := -1
+		for _, ri := range g.RulesOf(s) {
+			if best < 0 || minOf(ri) < minOf(best) {
+				best = ri
+			}
+		}
+		if best < 0 || minOf(best) >= inf {
+			return nil
+		}
+		var out []int
+		for _, x := range g.Rules[best].Rhs {
+			out = append(out, expand(x, depth+1)...)
+		}
+		return out
+	}
+	// candidates: A -> alpha A, alpha non-empty with a finite, non-zero minimal length
+	var cands []int
+	for ri, ru := range g.Rules {
+		n := len(ru.Rhs)
+		if ri == 0 || n < 2 || ru.Rhs[n-1] != ru.Lhs {
+			continue
+		}
+		l := 0
+		for _, x := range ru.Rhs[:n-1] {
+			l += minLen[x]
+		}
+		if l >= 1 && l < 8 && minLen[ru.Lhs] < inf {
+			cands = append(cands, ri)
+		}
+	}
+	if len(cands) == 0 {
+		return nil
+	}
+	ri := cands[r.Intn(len(cands))]
+	a := g.Rules[ri].Lhs
+	// shortest chain of rules from the start symbol down to a
+	start := g.Rules[0].Rhs[0]
+	type step struct{ rule, pos, from int }
+	via := map[int]step{}
+	seen := map[int]bool{start: true}
+	queue := []int{start}
+	for len(queue) > 0 && !seen[a] {
+		s := queue[0]
+		queue = queue[1:]
+		for _, rj := range g.RulesOf(s) {
+			if minOf(rj) >= inf {
+				continue
+			}
+			for pos, x := range g.Rules[rj].Rhs {
+				if g.IsNT[x] && !seen[x] {
+					seen[x] = true
+					via[x] = step{rj, pos, s}
+					queue = append(queue, x)
+				}
+			}
+		}
+	}
+	if !seen[a] {
+		return nil
+	}
+	var chain []step
+	for x := a; x != start; x = via[x].from {
+		chain = append([]step{via[x]}, chain...)
+	}
+	n := 1100 + r.Intn(600)
+	var prefix, suffix []int
+	for _, st := range chain {
+		rhs := g.Rules[st.rule].Rhs
+		for _, x := range rhs[:st.pos] {
+			prefix = append(prefix, expand(x, 0)...)
+		}
+		var tail []int
+		for _, x := range rhs[st.pos+1:] {
+			tail = append(tail, expand(x, 0)...)
+		}
+		suffix = append(tail, suffix...)
+	}
+	var alpha []int
+	rhs := g.Rules[ri].Rhs
+	for _, x := range rhs[:len(rhs)-1] {
+		alpha = append(alpha, expand(x, 0)...)
+	}
+	out := append([]int{}, prefix...)
+	for i := 0; i < n; i++ {
+		out = append(out, alpha...)
+	}
+	out = append(out, expand(a, 0)...)
+	return append(out, suffix...)
 }
 
 // deepSentence derives a sentence of about target tokens, preferring rules
